@@ -356,6 +356,18 @@ def classify(c, r, target="sql.sqlite"):
         if len(set(exp)) < len(exp) and len(names) < len(exp) and re.search(r"select !\{", prql) and _rq_frame_len(prql) == len(names):
             # the resolver's own frame (RQ relation.columns) already lacks the column: lost by the exclusion, not by the SQL back end
             return "exclude-drops-same-named-column"
+        if len(names) < len(exp) and re.search(r"select !\{", prql) and _rq_frame_len(prql) == len(names):
+            # the same defect when the SURVIVING column shares its bare name with an excluded one (`select !{t0.k}` also drops t2.k)
+            bare = {x.strip().strip("`").split(".")[-1] for grp in re.findall(r"select !\{([^}]*)\}", prql) for x in grp.split(",")}
+            rest = list(names)
+            missing = []
+            for e in exp:
+                if e in rest:
+                    rest.remove(e)
+                else:
+                    missing.append(e)
+            if missing and set(missing) <= bare:
+                return "exclude-drops-same-named-column"
         if len(set(exp)) < len(exp) and len(names) < len(exp) and set(names) <= set(exp) | {n for n in names if n.startswith("_expr_")}:
             return "same-name-column-dropped"
         if len(names) > len(exp) and re.search(r"SELECT (?:[^()]*, )?(?:\w+\.)?\*", sql):
